@@ -477,6 +477,35 @@ def generate(tier="quick"):
     r = repo()
     items = [("class", cq) for cq in targets(r)] + [("arith", None), ("bool", None)]
     obs = parallel(_dispatch, items)
+    # classes whose render function is outside the executor's subset: a bounded check of the real function stands in
+    unsup = [o for o in obs if not isinstance(o, tuple) and o.status == UNSUPPORTED]
+    if unsup:
+        import json
+        import os
+        import subprocess
+        from ..main import REPLAY_PY
+        from ..oblig import BOUNDED_OK, VERIF
+        classes = sorted({o.key.split("|")[0] for o in unsup})
+        try:
+            pr = subprocess.run([REPLAY_PY, os.path.join(VERIF, "replaylib", "batch.py")],
+                                input=json.dumps([["grouping", [c]] for c in classes]), capture_output=True, text=True,
+                                timeout=1500, env=dict(os.environ, PYTHONDONTWRITEBYTECODE="1"))
+            res = dict(zip(classes, json.loads(pr.stdout)))
+        except Exception:
+            res = {}
+        bound = ("every parent of the class over a pool of 23 operand trees (depth <= 2) in both operand slots, "
+                 "rendered and evaluated by SQLite against the value of the built tree")
+        for o in unsup:
+            c = o.key.split("|")[0]
+            if c not in res:
+                continue
+            why = o.reason
+            if res[c]:
+                o.status, o.reason = REFUTED, f"outside the executor's subset ({why}); bounded check: {res[c]}"
+                o.witness = {"family": "call", "oracle": "grouping", "args": [c]}
+            else:
+                o.status, o.reason = BOUNDED_OK, f"outside the executor's subset ({why})"
+            o.bounded, o.backend = bound, "bounded-exhaustive"
     funcs = sorted({r.classes[cq].resolve("get_sql")[1].qual for cq in targets(r)} |
                    {"pypika_tortoise.terms.ArithmeticExpression.left_needs_parens",
                     "pypika_tortoise.terms.ArithmeticExpression.right_needs_parens",
